@@ -2,6 +2,8 @@ use crate::h::core::Tier;
 use crate::h::driver::PropDef;
 use crate::h::scenario::Scenario;
 
+pub mod c02;
+pub mod c07;
 pub mod c08;
 pub mod c18;
 pub mod c19;
@@ -63,7 +65,49 @@ fn c08_work(seed: u64, tier: Tier, idx: u64) -> Option<Scenario> {
     }
 }
 
+fn c02_work(seed: u64, tier: Tier, idx: u64) -> Option<Scenario> {
+    let random = if tier == Tier::Quick { 12_000 } else { 600_000 };
+    if idx < random {
+        Some(c02::generate(seed, idx))
+    } else {
+        None
+    }
+}
+
+fn c07_work(seed: u64, tier: Tier, idx: u64) -> Option<Scenario> {
+    let random = if tier == Tier::Quick { 20_000 } else { 1_000_000 };
+    if idx < random {
+        Some(c07::generate(seed, idx))
+    } else {
+        None
+    }
+}
+
 static DEFS: &[PropDef] = &[PropDef {
+    id: "C07",
+    level: "exploration",
+    work: c07_work,
+    judge: c07::judge,
+    rule: "each scenario = one editing session on one document (valid / broken / token-soup / Unicode text, often ending in a tail whose lexing depends on what follows: quote, //, /, 0, 0x, <, :, keyword prefix) with 1..40 didChange notifications of 1..4 content changes, biased to edits at distance 0/1/2 from a token end and at the end of the text with replacement strings from the look-ahead classes; every lexer::update the broker performs (on tokens that are the chained result of all earlier updates; lexer observer hook) is compared with lexer::lex of the new text and its window is checked (head untouched, tail = old tail shifted incl. error ranges, bounds, Eof last); non-trivial = at least one fault/back-pressure/yield fired and a frame was emitted; distinct = distinct interleaving signature",
+    assumptions: &[
+        "the exhaustive part of the property's quantifier (all texts up to a small length over an alphabet) is bounded enumeration, i.e. model checking, and is not claimed; adjacency classes are sampled, not enumerated",
+        "the observed updates are exactly those AnalyzedSource::update performs (observer in spl_frontend::verif)",
+    ],
+    wall_cap: (150, 1500),
+}, PropDef {
+    id: "C02",
+    level: "exploration",
+    work: c02_work,
+    judge: c02::judge,
+    rule: "each scenario = one complete client session (handshake .. shutdown, exit) over 1..2 documents drawn from four generators (grammar-directed valid SPL, mutated SPL with unterminated literals/comments, token soup, arbitrary Unicode incl. CRLF) with 1..25 steps: didChange batches from the structural / arbitrary / overshooting / full-replacement families, typing bursts (one notification per keystroke, every intermediate state half-typed), close/reopen, and requests of all 13 methods at token starts/insides/ends, white space, line ends, overshooting columns and lines, for open, closed and never opened documents; delivered under seeded chunking, schedules, channel capacities 1..33, stdout back-pressure and client stalls; non-trivial = at least one fault/back-pressure/yield fired and a frame was emitted; distinct = distinct interleaving signature",
+    assumptions: &[
+        "release semantics as shipped (overflow wraps, debug_assert off): an arithmetic overflow that only panics in debug builds is a wrong answer, not a crash",
+        "well-formed requests only (valid params for the method, integer ids)",
+        "documents up to ~60 lines, nesting <= 8; a single poll running longer than 60 s is reported as non-termination by the watchdog",
+        "panic sites are identified by (innermost function of the code under test, message with numbers normalised)",
+    ],
+    wall_cap: (150, 1500),
+}, PropDef {
     id: "C08",
     level: "exploration",
     work: c08_work,
